@@ -160,7 +160,7 @@ func basicOps() []OpDef {
 				steps[0].To = "not-a-hash"
 				mut = "bad-recipient"
 			}
-			return &Call{Name: "probe.run", Mut: mut, Spec: world.TxnSpec{From: from, To: world.ProbeAddress, Value: Coin(value), Fee: Coin(h.fee(r) % 1000), Type: transaction.TxnTypeSmartContract, Func: "run", Input: in}}
+			return &Call{Name: "probe.run", Mut: mut, Meta: map[string]interface{}{"probe_steps": steps}, Spec: world.TxnSpec{From: from, To: world.ProbeAddress, Value: Coin(value), Fee: Coin(h.fee(r) % 1000), Type: transaction.TxnTypeSmartContract, Func: "run", Input: in}}
 		}},
 		{Name: "faucet.pour", Tags: []string{"faucet", "C17"}, Build: func(h *Hist, r *mon.Rand) *Call {
 			from := h.anyWallet(r)
